@@ -38,6 +38,7 @@ LIBS    := -lxml2 -lelf -ldw -lpthread -ldl
 LIBSRC  := $(filter-out $(REPO)/src/abg-ctf-reader.cc,$(wildcard $(REPO)/src/*.cc))
 LIBOBJ  := $(patsubst $(REPO)/src/%.cc,$(B)/lib/%.o,$(LIBSRC))
 TOOLS   := abidw abidiff abilint abicompat abipkgdiff abisym
+WRAP_S  := -Wl,--wrap=system,--wrap=mkdtemp
 WRAP_T  := -Wl,--wrap=pthread_create,--wrap=pthread_join,--wrap=pthread_mutex_lock,--wrap=pthread_mutex_trylock,--wrap=pthread_mutex_unlock,--wrap=pthread_cond_wait,--wrap=pthread_cond_timedwait,--wrap=pthread_cond_signal,--wrap=pthread_cond_broadcast,--wrap=sysconf
 
 .SECONDARY:
@@ -67,6 +68,23 @@ $(B)/harness/%.o: $(SIM)/%.cc $(wildcard $(SIM)/*.h)
 
 $(B)/queue_sim: $(B)/harness/queue_sim.o $(B)/sim/simsched.o $(B)/lib/abg-workers.o
 	$(CXX_V) $(SANFLAGS) $(WRAP_T) -rdynamic $^ -o $@ -lpthread
+
+toolsims: $(foreach t,$(TOOLS),$(B)/toolsim_$(t))
+$(foreach t,$(TOOLS),$(eval toolsim_$(t): $(B)/toolsim_$(t)))
+.PHONY: $(foreach t,$(TOOLS),toolsim_$(t))
+
+$(B)/harness/toolsim_%.o: $(SIM)/toolsim.cc $(wildcard $(SIM)/*.h)
+	@mkdir -p $(dir $@)
+	$(CXX_V) -std=c++11 $(OPT) -Wall $(SANFLAGS) -I$(SIM) -DTOOL_MAIN=$*_main -c $< -o $@
+
+ifeq ($(VARIANT),plain)
+  ALLOC_OBJ := $(B)/sim/simalloc.o
+else
+  ALLOC_OBJ := $(B)/sim/simalloc_stub.o
+endif
+
+$(B)/toolsim_%: $(B)/harness/toolsim_%.o $(B)/tools/%.o $(B)/sim/simsched.o $(B)/sim/simfile.o $(ALLOC_OBJ) $(LIBOBJ)
+	$(CXX_V) $(SANFLAGS) $(WRAP_T) $(WRAP_S) -rdynamic $^ -o $@ $(LIBS)
 
 -include $(wildcard $(B)/lib/*.d) $(wildcard $(B)/tools/*.d)
 
